@@ -152,10 +152,28 @@ def countsOp (j : Json) : R Json := do
       ("fit_ok", .bool ((fitCalls A c).2.isNone))]
   return Json.mkObj fields
 
+def fwdClassStr : FwdClass → String
+  | .evaluator => "evaluator" | .gibbs => "gibbs" | .halfStep => "halfStep" | .initParams => "initParams"
+
+/-- op `c14.resolve`: in: `kind`, `own` = the names the state defines itself, `names` = the names to resolve. out: `resolved` =
+[[outcome, class|null]…] (`QV.Frame.resolveMethod`), `table` = `rbmMethods kind` -/
+def resolveOp (j : Json) : R Json := do
+  let kd ← parseKind (← jStr (← fld j "kind"))
+  let own ← (← jArr (← fld j "own")).toList.mapM jStr
+  let names ← (← jArr (← fld j "names")).toList.mapM jStr
+  let res := names.map fun n =>
+    match resolveMethod (fun x => own.contains x) kd n with
+    | .own => Json.arr #[.str "own", .null]
+    | .forwarded c => Json.arr #[.str "forwarded", .str (fwdClassStr c)]
+    | .attributeError => Json.arr #[.str "attributeError", .null]
+  return Json.mkObj [("resolved", .arr res.toArray),
+    ("table", .arr ((rbmMethods kd).toArray.map fun e => .arr #[.str e.1, .str (fwdClassStr e.2)]))]
+
 def handle (op : String) (j : Json) : Option (R Json) :=
   match op with
   | "c14.run" => some (runOp j)
   | "c14.counts" => some (countsOp j)
+  | "c14.resolve" => some (resolveOp j)
   | _ => none
 
 end Drv.C14
